@@ -91,6 +91,16 @@ def run(tier, replay=None):
     else:
         print("NOTE the first mrp had finished before the second started; the two-process lock test did not apply")
     c1.cleanup()
+    # ---- creation of a new pipestance by several instances (spec/PsCreate.tla): exhaustive
+    # with the repaired behaviour (OneHolder, HolderIntact, SomeoneFinishes); the behaviour as
+    # found (the refused instance removes the directory) must violate HolderIntact
+    pc_ok = vlib.run_tlc("PsCreate", "PsCreate.cfg", workers=2, timeout=600)
+    if not pc_ok.ok:
+        raise vlib.Infra("PsCreate: %s %s" % (pc_ok.violation, pc_ok.out[-800:]))
+    pc_bad = vlib.run_tlc("PsCreate", "PsCreateBad.cfg", workers=1, timeout=600)
+    if pc_bad.ok or pc_bad.violation != "HolderIntact":
+        raise vlib.Infra("PsCreateBad (the refused instance removes the directory) does not violate HolderIntact: vacuous (%s)" % pc_bad.violation)
+    create_trace = [s_["_action"].split(" line")[0].lstrip("<") for s_ in pc_bad.error_trace][1:]
     # ---- two mrp processes started on a new pipestance at the same moment: both find the
     # directory empty; one is held there (it stops itself) until the other has created the
     # pipestance, taken the lock and started jobs
@@ -136,6 +146,34 @@ def run(tier, replay=None):
         intact = all(os.path.exists(os.path.join(cb.psdir, f)) for f in ("_lock", "_invocation", "_mrosource"))
         thb.join()
         outs_b = cb.top_outs()
+        # direction A: what the two processes did, as a behaviour of PsCreate (repaired variant)
+        lines = []
+        wmap = {}
+        for e in cb.events():
+            w = e.get("w", "")
+            if not w.startswith("mrp:"):
+                continue
+            m_ = wmap.setdefault(w, "ab"[len(wmap)] if len(wmap) < 2 else "x")
+            if e.get("ev") == "InvokeChecked":
+                lines.append({"a": "CheckEmpty", "m": m_, "look": False, "dir": [], "pc": "empty"})
+            elif e.get("ev") == "LockCheck":
+                lines.append({"a": "MakeNodes", "m": m_, "look": False, "dir": []})
+            elif e.get("ev") == "LockCreated":
+                lines.append({"a": "Lock", "m": m_, "look": False, "dir": [], "pc": "holding"})
+                lines.append({"a": "WriteMeta", "m": m_, "look": False, "dir": []})
+        loser = wmap.get("mrp:%d" % pid_a, "a")
+        lines.append({"a": "MakeNodes", "m": loser, "look": False, "dir": []})
+        lines.append({"a": "Lock", "m": loser, "look": False, "dir": [], "pc": "refused"})
+        lines.append({"a": "Cleanup", "m": loser, "look": True, "dir": ["nodes", "lock", "meta"] if intact else []})
+        tw = vlib.scratch("psctrace")
+        with open(os.path.join(tw, "psc_trace.ndjson"), "w") as f:
+            for ln in lines:
+                f.write(json.dumps(ln) + "\n")
+        tv = vlib.run_tlc("PsCreateTrace", "PsCreateTrace.cfg", workdir=tw, workers=1, timeout=300)
+        sim_report["steps_validated_against_PsCreate"] = len(lines)
+        sim_report["accepted_by_PsCreate"] = bool(tv.ok)
+        if not tv.ok and intact and outb.get("rc") == 0:
+            print("NOTE model-drift: the steps of the two processes are not a behaviour of spec/PsCreate.tla (%s)" % (tv.violation or "trace not accepted"))
         sim_report.update({"second_held_the_lock": held, "first_exit": outa.get("rc"), "second_alive_when_first_exited": b_alive,
                            "pipestance_intact_then": intact, "second_exit": outb.get("rc")})
         if held and b_alive:
@@ -236,6 +274,7 @@ def run(tier, replay=None):
         "traces_validated_against_impl": len(ps) + len(lock),
         "pairs": len(ps), "edit_kinds": kinds, "outcomes": counts,
         "lock_orders_replayed": lock, "two_process_lock_test": proc_report, "simultaneous_start_test": sim_report,
+        "creation_model": "PsCreate.cfg: %d distinct states, OneHolder, HolderIntact and SomeoneFinishes hold; PsCreateBad.cfg violates HolderIntact by %s" % (pc_ok.distinct, " ; ".join(create_trace)),
         "attach_while_locked_attempts": 2 * len(ps),
         "samples": [{"pair": ps[0]["id"], "model_same": same[ps[0]["id"]], "real": res[ps[0]["id"]]["reattach"]}],
         "known_findings_hit": hit,
